@@ -109,6 +109,10 @@ pub struct RetransEntry {
     msg_ctr: u32,
     // The retransmission counter
     counter: u16,
+    // The acknowledgement that was piggy-backed on the first transmission, if any.
+    // A retransmission must carry exactly the same one, as it has to be
+    // bit-for-bit identical to the first transmission (same message counter).
+    ack_msg_ctr: Option<u32>,
 }
 
 impl RetransEntry {
@@ -124,6 +128,7 @@ impl RetransEntry {
             base_delay_interval_ms,
             msg_ctr,
             counter: 0,
+            ack_msg_ctr: None,
         }
     }
 
@@ -262,8 +267,20 @@ impl ReliableMessage {
         // once we detect idle vs active devices
         _session_idle_interval_ms: Option<u32>,
     ) -> Result<(), Error> {
-        // Check if any acknowledgements are pending for this exchange,
-        if let Some(ack) = &mut self.ack {
+        let retransmission = tx_proto.is_reliable()
+            && self
+                .retrans
+                .as_ref()
+                .is_some_and(|retrans| retrans.get_msg_ctr() == tx_plain.ctr);
+
+        if retransmission {
+            // A retransmission goes out under the same message counter - and thus the same
+            // nonce - as the first transmission, so it must not differ from it in any bit.
+            // Re-use the acknowledgement piggy-backed back then, even if a newer message of
+            // the peer is waiting to be acknowledged by now (that one stays pending).
+            tx_proto.set_ack(self.retrans.as_ref().and_then(|retrans| retrans.ack_msg_ctr));
+        } else if let Some(ack) = &mut self.ack {
+            // Check if any acknowledgements are pending for this exchange,
             // if so, piggy back in the encoded header here
             tx_proto.set_ack(Some(ack.get_msg_ctr()));
             ack.acknowledged = true;
@@ -287,7 +304,10 @@ impl ReliableMessage {
                     Err(ErrorCode::TxTimeout)?;
                 }
             } else {
-                self.retrans = Some(RetransEntry::new(session_active_interval_ms, tx_plain.ctr));
+                let mut retrans = RetransEntry::new(session_active_interval_ms, tx_plain.ctr);
+                retrans.ack_msg_ctr = tx_proto.get_ack();
+
+                self.retrans = Some(retrans);
             }
         }
 
